@@ -366,6 +366,53 @@ def h_dynamics(ctx, d, N, F, types, mode):
     ctx.check_unchanged("frame")
 
 
+def h_sq4_state(ctx, d, N, F):
+    """Dynamics.sq4 asked twice on one object with different wave-number ranges: the second answer is the one a fresh object
+    gives for that range (qrange is an argument of the call, not state of the object)"""
+    ctx.covers("PyMatterSim.dynamic.dynamics.Dynamics.sq4")
+    from checks.c04 import BOXES
+    dyn = ctx.repo("PyMatterSim.dynamic.dynamics")
+    ru = ctx.repo("PyMatterSim.reader.reader_utils")
+    sym = ctx.mode == "sym"
+    steps = [10 * (f + 1) for f in range(F)]
+    L = [C.const(ctx, x) for x in BOXES[d][0]]
+    rows = [[L[a] if a == b else 0 for b in range(d)] for a in range(d)]
+    poss, snaps = [], []
+    for f in range(F):
+        prow = [[ctx.real(f"p{f}_{i}_{a}") for a in range(d)] for i in range(N)]
+        poss.append(prow)
+        snaps.append(C.snapshot(ctx, ru, steps[f], [1] * N, C.farr(ctx, prow), rows))
+    S = ru.Snapshots(nsnapshots=F, snapshots=snaps)
+    protect_snapshots(ctx, S)
+    dia = {1: _positive(ctx, "sigma1")}
+    a = _positive(ctx, "a", 0.3)
+    dt = _positive(ctx, "dt", 0.002)
+    pi_ = O.pi(ctx)
+    Lmax = C.const(ctx, max(Fraction(x) for x in BOXES[d][0]))
+    q1, q2 = _positive(ctx, "qrange1", 1.0), _positive(ctx, "qrange2", 2.0)
+    # numofq = int(qrange * Lmax / pi): 2 for the first range, 4 for the second
+    ctx.assume(O.And(O.ge(q1 * Lmax, 2 * pi_), O.lt(q1 * Lmax, 3 * pi_)))
+    ctx.assume(O.And(O.ge(q2 * Lmax, 4 * pi_), O.lt(q2 * Lmax, 5 * pi_)))
+    t = (steps[1] - steps[0]) * dt
+    for n0 in range(F - 1):          # every origin has a slow particle (0/0 otherwise)
+        conds = []
+        for i in range(N):
+            dist = sum((poss[n0 + 1][i][c] - poss[n0][i][c]) ** 2 for c in range(d))
+            conds.append(O.lt(dist, (a * dia[1]) * (a * dia[1])))
+        ctx.assume(O.Or(*conds))
+
+    def fresh():
+        return dyn.Dynamics(xu_snapshots=S, dt=dt, ppp=np.array([0] * d), diameters=dia, a=a, cal_type="slow")
+    obj = fresh()
+    first = obj.sq4(t=t, qrange=q1)
+    second = obj.sq4(t=t, qrange=q2)
+    again = obj.sq4(t=t, qrange=q1)
+    ctx.output("Sq", np.asarray(second["Sq"].values))
+    same(ctx, "sq4(qrange2) after sq4(qrange1) vs a fresh object", second, fresh().sq4(t=t, qrange=q2))
+    same(ctx, "sq4(qrange1) asked again after sq4(qrange2)", first, again)
+    ctx.check_unchanged("frame")
+
+
 def h_coarse(ctx, N, F, topo):
     ctx.covers("PyMatterSim.utils.coarse_graining.time_average", "PyMatterSim.utils.coarse_graining.spatial_average")
     cg = ctx.repo("PyMatterSim.utils.coarse_graining")
@@ -598,6 +645,8 @@ HARNESSES = [
     H("boo2d_state", h_boo2d, cfg_boo2d, timeout_ms=30000, abstract=True),
     H("boo3d_state", h_boo3d, cfg_boo3d, timeout_ms=30000, abstract=True, budget_s=300),
     H("dynamics_sequence", h_dynamics, cfg_dyn, timeout_ms=30000, abstract=True, budget_s=300),
+    H("sq4_state", h_sq4_state, lambda tier, seed: [dict(d=2, N=2, F=2)] + ([dict(d=2, N=2, F=3)] if tier == "thorough" else []),
+      timeout_ms=30000, abstract=True, budget_s=300),
     H("coarse_graining", h_coarse, cfg_coarse, timeout_ms=30000, abstract=True),
     H("vector_measures", h_vector, cfg_vector, timeout_ms=30000, abstract=True),
     H("neighbour_writers", h_neighbors, cfg_nb, timeout_ms=30000, abstract=True, budget_s=300),
